@@ -13,7 +13,9 @@ EXPLANATION = ('Decided from MIR: (R20.1) panic-site census from urdf::from_urdf
                'of the joint-number match writes the parameter set {1:c1, 2:a1, 3:{c2,b}, 4:{a2 (negated), c3}, 5:c3, 6:c4}, a missing joint is '
                'an Err; (R20.5) joint collection recurses unconditionally into every child element, so the result is a function of the set of '
                'joints (nesting, order and identical copies do not matter); (R20.6) the xacro angle pattern: the capture group handed to the '
-               'float parser spans the whole decimal number (regex constant evaluated against a specification table of tokens).  That the '
+               'float parser spans the whole decimal number (regex constant evaluated against a specification table of tokens); (R20.9) component '
+               'table: on joint 3 c2 is read from the x/z components of the origin and b from y, on joint 4 a2 from z and c3 from x/y, the other '
+               'lengths from the single non-zero component, and the two-component choice helper is interpreted on point values.  That the '
                'origin-to-parameter heuristics recover every OPW-layout robot is a behavioural claim over generated documents and not decided.')
 NOT_DECIDED = 'that the heuristics recover the parameters of every OPW-layout robot; name-decoration handling; xacro syntax coverage'
 ASSUMPTIONS = ['sxd_document parses or rejects arbitrary input without panicking', 'Rust regex and Python re agree on the syntax subset used by the angle pattern']
@@ -255,6 +257,7 @@ def run(ctx):
             want_src = {'sign_corrections': 'sign_correction', 'from': 'from', 'to': 'to'}[fld]
             srcfld = mir.subterms(v, lambda x: x[0] == 'fld' and x[2] == want_src)
             slots_ok[fld] = same and bool(srcfld) and util.const_val(r[0]) == 0 and util.const_val(r[1]) == 6
+    _component_table(ctx, prog, pp, opl[0])
     for nkey in sorted(ARMS):
         ctx.check(arms.get(nkey) == ARMS[nkey], 'R20.4', 'arm%d' % nkey, pp.where(0), pp.path,
                   'joint %d must set exactly %s, found %s' % (nkey, sorted(ARMS[nkey]), sorted(arms.get(nkey, []))), detail=str(sorted(arms.get(nkey, []))))
@@ -346,6 +349,90 @@ def run(ctx):
 
     angle_syntax(ctx, fu)
     joint_names(ctx, cj)
+
+
+# which components of the joint origin may feed a parameter (the supported layouts of the property: c2 along z or x with b
+# along y on joint 3; a2 along z with c3 along y or x on joint 4; otherwise the single non-zero component of the origin)
+COMPONENTS = {(1, 'c1'): [{'whole'}], (2, 'a1'): [{'whole'}], (3, 'c2'): [{'whole'}, {'x', 'z'}], (3, 'b'): [set(), {'y'}],
+              (4, 'a2'): [{'whole'}, {'z'}], (4, 'c3'): [{'x', 'y'}], (5, 'c3'): [{'whole'}], (6, 'c4'): [{'whole'}]}
+
+
+def _components(t):
+    """components of `joint.vector` a value term is computed from: 'x' / 'y' / 'z', or 'whole' when the vector is used as one"""
+    out = set()
+
+    def is_vec(x):
+        x = strip(x)
+        return isinstance(x, tuple) and x[0] == 'fld' and x[2] == 'vector'
+
+    def f(x):
+        x = strip(x) if isinstance(x, tuple) else x
+        if not isinstance(x, tuple):
+            return
+        if x[0] == 'fld' and is_vec(x[1]) and x[2] in ('x', 'y', 'z'):
+            out.add(x[2])
+            return
+        if is_vec(x):
+            out.add('whole')
+            return
+        for y in x[1:]:
+            if isinstance(y, tuple):
+                f(y)
+    f(t)
+    return out
+
+
+def _component_table(ctx, prog, pp, opl):
+    from .. import absint
+    from ..absint import Interp, Iv
+    ctx.rule('R20.9', 'component table: on joint 3 c2 is read from x/z and b from y, on joint 4 a2 from z and c3 from x/y; the other lengths '
+                      'from the single non-zero component; a helper choosing between two components returns the non-zero one')
+    n = 0
+    helpers = {}
+    for i, j, st in pp.stmts():
+        lhs = st['lhs']
+        if lhs['local'] != opl or not lhs['proj']:
+            continue
+        fld = lhs['proj'][0].get('name')
+        arm = [k for g, k, sw in pp.guard_terms(i) if isinstance(k, int) and _is_j_plus_1(strip(g))]
+        if fld not in ('c1', 'c2', 'c3', 'c4', 'a1', 'a2', 'b') or not arm or (arm[-1], fld) not in COMPONENTS:
+            continue
+        v = pp.rv_term(st['rv'], (i, j))
+        comps = _components(v)
+        n += 1
+        allowed = COMPONENTS[(arm[-1], fld)]
+        ctx.check(comps in allowed, 'R20.9', 'joint%d/%s<-%s' % (arm[-1], fld, '+'.join(sorted(comps)) or 'const'), pp.where(i, j), pp.path,
+                  'on joint %d the parameter %s may be read from %s of the joint origin, found %s' %
+                  (arm[-1], fld, ' or '.join('{' + ','.join(sorted(a)) + '}' if a else 'a constant' for a in allowed), sorted(comps) or 'a constant'),
+                  found=show(v, maxdepth=6), detail=','.join(sorted(comps)) or 'const')
+        if len(comps) == 2:
+            for c in mir.subterms(v, lambda x: x[0] == 'call' and x[1] in prog.bodies and prog.bodies[x[1]].kind != 'Closure'):
+                hb = prog.bodies[c[1]]
+                if [hb.local_ty(k) for k in range(1, hb.arg_count + 1)][:2] == ['f64', 'f64'] and 'Result<f64' in hb.local_ty(0).replace('std::result::', ''):
+                    helpers[hb.path] = hb
+    ctx.floor('R20.9 component-table writes', n, 8)
+    for hb in helpers.values():
+        ctx.fn(hb)
+        extra = [('refval', 'c2', ())] * (hb.arg_count - 2)
+        for a, b_, want in ((0.0, 0.0, 0.0), (0.0, 2.5, 2.5), (1.5, 0.0, 1.5), (-0.75, 0.0, -0.75), (0.0, -0.25, -0.25), (1.5, 2.5, None)):
+            key = 'choice(%g,%g)' % (a, b_)
+            I = Interp(prog, {}, fuel=20000, max_paths=8)
+            try:
+                outs = I.run(hb.path, [Iv(a), Iv(b_)] + extra)
+            except (absint.Unsupported, absint.Undecided) as e:
+                if want is None:
+                    ctx.ok('R20.9', key, hb.where(0), 'error path not interpreted (%s)' % type(e).__name__)
+                    continue
+                raise MachineryError('the component-choice helper could not be interpreted: %s' % e)
+            got = [o.ret for o in outs]
+            if want is None:
+                ok = all(isinstance(r, tuple) and r[0] == 'enum' and r[1] == 1 for r in got)
+            else:
+                ok = len(got) == 1 and isinstance(got[0], tuple) and got[0][0] == 'enum' and got[0][1] == 0 and isinstance(got[0][2][0], Iv) and \
+                    got[0][2][0].is_point() and got[0][2][0].lo == want
+            ctx.check(ok, 'R20.9', key, hb.where(0), hb.path,
+                      'the helper choosing between two components must return the non-zero one (0 when both are 0, an error when both are set)',
+                      found=repr(got)[:200], expected='Err' if want is None else 'Ok(%g)' % want, detail='by interpretation')
 
 
 def _is_j_plus_1(g):
